@@ -52,6 +52,8 @@ type Harness struct {
 }
 
 type Config struct {
+	atomicOnce     sync.Once
+	atomicFields   map[string]string
 	prog           *ssa.Program
 	pkgs           []*packages.Package
 	stubs          map[string]*ssa.Function
@@ -352,4 +354,10 @@ func loadProgram(h *Harness, cfg *Config) error {
 		cfg.stubNames = append(cfg.stubNames, sd[0]+" -> "+sd[1])
 	}
 	return nil
+}
+
+// atomicFieldsOnce runs the scan for atomically written fields once per run.
+func (cfg *Config) atomicFieldsOnce() map[string]string {
+	cfg.atomicOnce.Do(func() { cfg.atomicFields = atomicFieldScan(cfg) })
+	return cfg.atomicFields
 }
